@@ -164,11 +164,42 @@ class Exits:
                 pr = self.project_local(int(lm.group(1)), int(m.group(2)), depth)
                 if pr is not None:
                     return pr
-            return '%s.%s' % (base, m.group(2))
+            fname = self.field_name(m.group(1).strip(), int(m.group(2)))
+            return '%s.%s' % (base, fname if fname else m.group(2))
         m = re.match(r'^(.*)\[(.*)\]$', pl)
         if m:
             return '%s[%s]' % (self.place(m.group(1), depth), self.val(m.group(2), depth))
         return '_'
+
+    def field_name(self, base_place, idx):
+        """Name of field idx of the crate struct that `base_place` has, if that can be told."""
+        from . import structs
+        bp = base_place
+        for _ in range(4):
+            m = re.fullmatch(r'\(\*(.*)\)', bp)
+            if not m:
+                break
+            bp = m.group(1).strip()
+        ty = None
+        m = re.fullmatch(r'_(\d+)', bp)
+        if m:
+            loc = int(m.group(1))
+            ty = self.body.locals.get(loc)
+            if ty is None:
+                for pl_, pt in self.body.params:
+                    if pl_ == loc:
+                        ty = pt
+        else:
+            m = re.match(r'^\(.*\.\d+: (.*)\)$', bp)
+            if m:
+                ty = m.group(1)
+        sn = structs.struct_of(ty) if ty else None
+        if not sn:
+            return None
+        fields = structs.index(self.prog.repo).get(sn)
+        if fields and idx < len(fields):
+            return fields[idx]
+        return None
 
     def project_local(self, loc, idx, depth, guard=0):
         """Component idx of a tuple-valued local, through moves, success payloads of visible values and alternatives."""
